@@ -92,7 +92,17 @@ class HierDictDocument(DictDocument):
 
             class_name = self.get_class_name(body_class)
             if self.ignore_wrappers:
-                doc = doc.get(class_name, None)
+                if class_name in doc:
+                    doc = doc[class_name]
+
+                elif len(doc) == 1:
+                    # the envelope has exactly one entry and it was used to
+                    # find this method: its key need not be the name of the
+                    # message class (bare methods, str/bytes keys)
+                    doc, = doc.values()
+
+                else:
+                    doc = None
 
             result_message = self._doc_to_object(ctx, body_class, doc,
                                                                  self.validator)
